@@ -312,4 +312,42 @@ example :
     (register (unregister (register (init false none) f6Collector).1 f6Collector).1 f6Other).2 = none := by
   decide
 
+/-! ### the frame clause for the two other ways in: self-registering constructors and caller-owned dicts -/
+
+/-- **A built-in metric constructor that raises leaves the registry exactly as it was** — whether it raises because the name
+clashes or because the class rejects its arguments (T1 flag `ctorsRegisterLast`: on a tree where e.g. `Enum.__init__`
+validates `states` after the base constructor registered the metric, `decide` fails here and `construct` keeps the
+half-built collector registered; `harness/props/c06frame.py` then exhibits the input). -/
+theorem ctor_rejected_is_frame (s : State) (c : Collector) (rejects : Bool) (h : (construct s c rejects).2 ≠ none) :
+    (construct s c rejects).1 = s := by
+  have hf : PromVerif.Generated.Registry.ctorsRegisterLast = true := by decide
+  unfold construct at h ⊢
+  simp only [hf, if_true] at h ⊢
+  cases rejects
+  · simp only [Bool.false_eq_true, if_false] at h ⊢
+    exact register_clash_is_frame s c h
+  · simp
+
+/-- an accepted constructor call IS a registration -/
+theorem ctor_accepted_is_register (s : State) (c : Collector) : construct s c false = register s c := by
+  have hf : PromVerif.Generated.Registry.ctorsRegisterLast = true := by decide
+  simp [construct, hf]
+
+theorem enum_validates_before_register : PromVerif.Generated.Registry.enumValidatesBeforeRegister = true := by decide
+
+example : (construct (register (init true none) exA).1 exB true).2 = some .valueError ∧
+    (construct (register (init true none) exA).1 exB true).1 = (register (init true none) exA).1 := by decide
+
+/-- **Mutating a dict the caller passed to `set_target_info`, got from `get_target_info()` or found on a collected
+`target_info` sample is not a registry call**: the registry is exactly as it was (T1 flags `targetInfoStoredCopied`,
+`targetInfoHandedOutCopied`; on a tree that stores or hands out the dict itself the model has no answer and this fails). -/
+theorem caller_dict_mutation_is_frame (s : State) (h : DictHolder) : afterCallerDictMutation s h = some s := by
+  have hp : dictIsPrivate h = true := by cases h <;> decide
+  simp [afterCallerDictMutation, hp]
+
+/-- … hence `target_info` stays claimed iff target info is configured, whatever the caller does to its dict afterwards -/
+theorem caller_dict_mutation_keeps_inv {s : State} (hi : Inv s) (h : DictHolder) :
+    ∃ s', afterCallerDictMutation s h = some s' ∧ Inv s' :=
+  ⟨s, caller_dict_mutation_is_frame s h, hi⟩
+
 end PromVerif.Props.C06
